@@ -802,6 +802,30 @@ def check_C03(chk, R, S):
     run_sim_class(chk, "sim-timer-rearm", [gen_rearm(R) for _ in range(S["sims"])], [M.mon_C03])
     run_sim_class(chk, "sim-decimal-ties", [gen_decimal_ties(R) for _ in range(max(60, S["sims"] // 5))], [M.mon_C03])
     el_million_class(chk)
+
+    def mon_update_order(sc, tr):
+        # (a request made at a mobility-update instant and judged on the positions of the wrong side of that update: the update and
+        # the event that made the request ran in the wrong order)
+        v = ["C03: an event and the mobility update due at the same instant ran out of request order -- " + x[4:].lstrip()
+             for x in M.mon_C09(sc, tr)]
+        si = sc.get("sameinst")
+        if si and si["k"] >= 2:
+            # the timer was requested at initialisation, the update of its instant one interval before that instant: the timer runs
+            # first, and what it sends (message 1) is judged on the separation BEFORE the update
+            a = si["timer_node"]
+            got = any(t[0] == "cb" and t[1] == str(1 - a) and t[3] == "packet" and t[4] == "1" for t in M.parse(tr))
+            sent = any(t[0] == "act" and t[1] == str(a) and t[2] in ("send", "bcast") and t[3] == "1" and t[-1] == "ok" for t in M.parse(tr))
+            want = si["before"] <= si["range"]
+            if sent and got != want:
+                v.append("C03: node %d's timer for %r was requested at initialisation, the mobility update of %r only at %r, yet the update ran "
+                         "first: the message the timer sends was %s although the nodes were %r apart before that update and %r after it "
+                         "(range %r)" % (a, si["T"], si["T"], si["T"] - si["rate"], "delivered" if got else "not delivered",
+                                         si["before"], si["after"], si["range"]))
+        return v
+    # events that coincide with a mobility update: a timer armed at initialisation for the instant of the k-th update (requested
+    # before that update was, for k >= 2), a send from the telemetry that update delivers (requested after it)
+    run_sim_class(chk, "sim-same-instant-as-update", [gen_same_instant_scenario(R) for _ in range(max(60, S["sims"] // 6))],
+                  [M.mon_C03, mon_update_order])
     run_sim_class(chk, "sim-mass-cancel", [gen_mass_cancel(R, n) for n in sorted(set([1100] + [m for m in mined_burst_sizes() if m <= 12000]))[:6]
                                            for _ in range(2)], [M.mon_C03], batch=4)
     run_el_class(chk, "el-chronological", el_chrono(R, max(200, S["el_rand"] // 4)))
@@ -1535,6 +1559,13 @@ def check_C08(chk, R, S):
     _many_nodes_class(chk, R, S, [M.mon_C08], rng=1000.0, mob=False)
     run_sim_class(chk, "sim-range-set-before-start", [gen_range_before_start(R) for _ in range(max(30, S["sims"] // 10))], [M.mon_C08])
 
+    def mon_addressees_in_range(sc, tr):
+        return ["C08:" + x[4:] for x in M.mon_C09(sc, tr)]
+    # who is in range changes during the run (per-node ranges set through the controller after the node has already transmitted):
+    # a message must reach exactly the addressees in range at ITS send time
+    run_sim_class(chk, "sim-range-toggling", [gen_range_toggling(R) for _ in range(max(40, S["sims"] // 6))], [M.mon_C08, mon_addressees_in_range])
+    run_sim_class(chk, "sim-range", [gen_range_scenario(R) for _ in range(max(60, S["sims"] // 4))], [M.mon_C08, mon_addressees_in_range])
+
 
 QUADS = [(1, 2, 2, 3), (2, 3, 6, 7), (1, 4, 8, 9), (4, 4, 7, 9), (2, 6, 9, 11), (6, 6, 7, 11), (3, 4, 12, 13), (2, 10, 11, 15)]
 
@@ -1628,7 +1659,8 @@ def gen_same_instant_scenario(R):
     hs = ["T", "C", "M"]
     R.shuffle(hs)
     return {"handlers": hs, "nodes": nodes, "med": (rng, R.choice([0.0, 0.0, 0.125]), 0.0), "mob": (rate, v, (0.0, 0.0, 0.0)),
-            "asserts": [], "seed": 1, "dur": T + 1.0, "maxit": None, "drv": ("run",), "script": script}
+            "asserts": [], "seed": 1, "dur": T + 1.0, "maxit": None, "drv": ("run",), "script": script,
+            "sameinst": {"k": k, "timer_node": a, "before": abs(pre), "after": abs(post), "range": rng, "T": T, "rate": rate}}
 
 
 def _many_nodes_class(chk, R, S, mons, rng=None, mob=True):
